@@ -194,6 +194,14 @@ ASSIGN_OPS = {"I": ["=", "+=", "-=", "*=", "/=", "%=", "&=", "|=", "^=", "<<=", 
 ASSIGNABLE = {"I": ["i0", "i1", "i2"], "F": ["f0"], "S": ["s0"], "A": ["a0"], "M": ["m0"]}
 
 
+def cond_expr(depth, helpers=()):
+    """conditions of if / while: integer expressions, and comparisons of a float with the integer constant 0 (rewritten by the compiler)"""
+    fz = st.sampled_from([["bin", "I", "!=", var("F", "f0"), lit("I", 0)], ["bin", "I", "!=", lit("I", 0), var("F", "f0")],
+                          ["bin", "I", "==", var("F", "f0"), lit("I", 0)], ["bin", "I", "!=", var("F", "x"), lit("I", 0)],
+                          ["bin", "I", "!=", ["bin", "F", "-", var("F", "f0"), var("F", "f0")], lit("I", 0)]])
+    return st.one_of(iexpr(depth, helpers), iexpr(depth, helpers), iexpr(depth, helpers), fz)
+
+
 @st.composite
 def stmt(draw, depth, ctx):
     """ctx: dict(in_loop, in_switch, loopvars free list, helpers)"""
@@ -254,10 +262,15 @@ def stmt(draw, depth, ctx):
         return ["incdec", target, draw(st.sampled_from(["++x", "x++", "--x", "x--"]))]
     if k == 5:
         then = draw(block(depth - 1, ctx)) or [["assign", ["v", "I", "i1"], "+=", lit("I", 1)]]
-        return ["if", draw(iexpr(2, ctx["helpers"])), then, draw(block(depth - 1, ctx))]
+        return ["if", draw(cond_expr(2, ctx["helpers"])), then, draw(block(depth - 1, ctx))]
     if k == 6 and ctx["loopvars"]:
         v = ctx["loopvars"][0]
         sub = dict(ctx, in_loop=True, loopvars=ctx["loopvars"][1:])
+        if draw(st.integers(0, 7)) == 0:
+            # bounds around the 32-bit edges: a few iterations that start below and end above a power of two
+            base = draw(st.sampled_from([1 << 31, 1 << 32, -(1 << 31), (1 << 32) + (1 << 31), 1 << 40]))
+            d0, d1 = draw(st.integers(-4, 1)), draw(st.integers(0, 5))
+            return ["for", v, lit("I", base + d0), lit("I", base + d1), draw(block(depth - 1, sub))]
         lo = draw(st.one_of(st.integers(-2, 3).map(lambda x: lit("I", x)), st.just(["bin", "I", "&", var("I", "a"), lit("I", 3)])))
         hi = draw(st.one_of(st.integers(0, 9).map(lambda x: lit("I", x)), st.just(["bin", "I", "&", var("I", "b"), lit("I", 7)]),
                             st.just(["sizeof", "I", var("A", "a0")])))
@@ -265,7 +278,7 @@ def stmt(draw, depth, ctx):
     if k == 7 and ctx["guards"]:
         g = ctx["guards"][0]
         sub = dict(ctx, in_loop=True, guards=ctx["guards"][1:])
-        return [draw(st.sampled_from(["while", "dowhile"])), draw(iexpr(2)), draw(block(depth - 1, sub)), g]
+        return [draw(st.sampled_from(["while", "dowhile"])), draw(cond_expr(2)), draw(block(depth - 1, sub)), g]
     if k == 8 and ctx["guards"] and not ctx.get("wd_used"):
         g = ctx["guards"][0]
         sub = dict(ctx, in_loop=True, guards=ctx["guards"][1:], wd_used=True)
